@@ -55,7 +55,8 @@ class C18(Check):
         shape = {'p_switch': rng.choice([0.1, 0.3]), 'line_gaps': rng.choice([0, 0, 10]),
                  'members': members, 'struct_rw': rng.random() < 0.5, 'labels': labels,
                  'limits': rng.choice(['min', 'max', 'minmax', 'limits']), 'nctl': rng.choice([1, 2, 3]),
-                 'poll': rng.random() < 0.5, 'split': rng.random() < 0.4}
+                 'poll': rng.random() < 0.5, 'split': rng.random() < 0.4,
+                 'fe_hw_max': rng.randrange(len(labels)) if rng.random() < 0.4 else None}
         ops = []
         for _ in range(rng.randrange(3, 26 if tier == 'thorough' else 18)):
             who = rng.choice(['wire', 'wire', 'driver'])
@@ -133,6 +134,11 @@ class C18(Check):
                 ns[f'read_st_{m}'] = rf
                 ns[f'write_st_{m}'] = wf
         ns['fe'] = FloatEnumParam('float enum', list(shape['labels']), 'V')
+        if shape.get('fe_hw_max') is not None:
+            # the hardware does not take every range: it reports back the one it really took
+            def write_fe_idx(self, value):
+                return min(int(value), shape['fe_hw_max'])
+            ns['write_fe_idx'] = write_fe_idx
         ns['x'] = Parameter('limited', FloatRange(-1000, 1000), default=50, readonly=False)
         lim = shape['limits']
         if lim in ('min', 'minmax'):
@@ -395,14 +401,23 @@ class C18(Check):
                 res.append(Violation('C18.float-index-mismatch', op['kind'],
                                      f'{what}: fe = {a["fe"]} but fe_idx = {a["idx"]} -> {vdict[a["idx"]]}'))
                 return res
+            hwmax = shape.get('fe_hw_max')
             if op['group'] == 'fe' and op['kind'] == 'float' and accepted and not s.get('also_done'):
                 best = min(abs(v - op['v']) for v in vdict.values())
-                if abs(abs(vdict[a['idx']] - op['v']) - best) > 1e-12 * max(1.0, best):
+                closest = min(vdict, key=lambda i: abs(vdict[i] - op['v']))
+                if hwmax is not None and closest > hwmax:
+                    # the hardware took another range than the closest one: the index says which
+                    if a['idx'] != hwmax:
+                        res.append(Violation('C18.not-closest-value', 'hardware-choice',
+                                             f'{what}: wrote {op["v"]}, the hardware takes at most index {hwmax}, holds {a["idx"]}'))
+                        return res
+                elif abs(abs(vdict[a['idx']] - op['v']) - best) > 1e-12 * max(1.0, best):
                     res.append(Violation('C18.not-closest-value', 'write',
                                          f'{what}: wrote {op["v"]}, selected {vdict[a["idx"]]} (index {a["idx"]}), allowed '
                                          f'values {sorted(vdict.values())}'))
                     return res
-            if op['group'] == 'fe' and op['kind'] == 'index' and accepted and a['idx'] != op['i'] and not s.get('also_done'):
+            if op['group'] == 'fe' and op['kind'] == 'index' and accepted and not s.get('also_done') and \
+                    a['idx'] != (op['i'] if hwmax is None or op['who'] != 'wire' else min(op['i'], hwmax)):
                 res.append(Violation('C18.index-write-lost', 'index', f'{what}: wrote index {op["i"]}, holds {a["idx"]}'))
                 return res
             # limits
